@@ -39,9 +39,9 @@ prop('C19', [k('k_serde', 'C19', 'serde')], ['ill-shaped inputs beyond arbitrary
 prop('C04', [k('k_newtype', 'C04'), k('k_newtype', 'C04', 'none'), k('k_contracts', 'C04'), k('k_short', 'C04'), v('v_msg', 'C04'), v('v_cc14', 'C04'), v('v_nrpn', 'C04'), v('v_poll', 'C04')],
      ['restricted-integer inputs of every harness / contract are assumed in range (type invariant as precondition)', B1], VERUS_TB + KANI_TB)
 prop('C05', [k('k_newtype', 'C05'), k('k_contracts', 'C05')], ['Hash agreement with the numeric value is not examined (derived)'], KANI_TB)
-prop('C07', [v('v_cc14', 'C07'), k('k_bridge', 'C07')], [B1, B3], VERUS_TB)
+prop('C07', [v('v_cc14', 'C07'), k('k_bridge', 'C07'), k('k_serde', 'C07', 'serde')], [B1, B3], VERUS_TB)
 prop('C08', [v('v_cc14', 'C08'), k('k_bridge', 'C08')], [B1, B3], VERUS_TB)
-prop('C09', [v('v_msg', 'C09'), k('k_bridge', 'C09')], [B1], VERUS_TB)
+prop('C09', [v('v_msg', 'C09'), k('k_bridge', 'C09'), k('k_serde', 'C09', 'serde')], [B1], VERUS_TB)
 prop('C10', [v('v_nrpn', 'C10'), k('k_bridge', 'C10')], [B1, B3], VERUS_TB)
 prop('C11', [v('v_nrpn', 'C11'), k('k_bridge', 'C11')], [B1, B3], VERUS_TB)
 prop('C12', [v('v_poll', 'C12'), k('k_bridge', 'C12')], [B1, B3, CLOCK], VERUS_TB)
@@ -50,7 +50,7 @@ prop('C14', [v('v_poll', 'C14'), k('k_bridge', 'C14')], [B1, B3, CLOCK], VERUS_T
 prop('C15', [v('v_cc14', 'C15'), v('v_nrpn', 'C15'), v('v_poll', 'C15'), k('k_bridge', 'C15')], [B1, B3, CLOCK, LANG], VERUS_TB)
 prop('C16', [v('v_cc14', 'C16'), v('v_nrpn', 'C16'), v('v_poll', 'C16'), v('v_msg', 'C16'), k('k_bridge', 'C16')], [B1, B3, CLOCK], VERUS_TB)
 prop('C17', [v('v_cc14', 'C17'), v('v_nrpn', 'C17'), v('v_poll', 'C17'), k('k_bridge', 'C17')], [B1, B3, CLOCK, LANG], VERUS_TB)
-prop('C18', [v('v_msg', 'C18'), v('v_cc14', 'C18'), v('v_nrpn', 'C18'), v('v_poll', 'C18'), k('k_bridge', 'C18'), k('k_short', 'C18', thorough_only=True), k('k_newtype', 'C18', thorough_only=True), k('k_newtype', 'C18', 'none', thorough_only=True)], [B1, B3, CLOCK], VERUS_TB)
+prop('C18', [v('v_msg', 'C18'), v('v_cc14', 'C18'), v('v_nrpn', 'C18'), v('v_poll', 'C18'), k('k_bridge', 'C18'), k('k_newtype', 'C18q'), k('k_short', 'C18', thorough_only=True), k('k_newtype', 'C18', thorough_only=True), k('k_newtype', 'C18', 'none', thorough_only=True)], [B1, B3, CLOCK], VERUS_TB)
 
 # ----------------------------------------------------------------------------- manifest texts
 VNOTE = 'Every public step contract is additionally decided on the real crate by a paired Kani harness (counterexamples, shape-change robustness); a Verus failure that none of the covering Kani harnesses confirms is reported as undecided (exit 2). Trusted: Verus/Z3/vstd; Kani/CBMC; the extractor (token round-trip check each run); bridge contracts B1-B3 (assumed in Verus, proved by Kani); clock model for the polling scanner; derived PartialEq structural. Listed in full in the evidence file (trusted_base, assumptions).'
